@@ -64,8 +64,15 @@ pub mod server {
     pub mod types {
 //@include frag/server_types.tpl
     }
+    pub mod handler {
+//@include frag/server_handler.tpl
+    }
+    pub mod reply_spec {
+//@include frag/server_reply_spec.tpl
+    }
     pub mod request {
 //@include frag/server_request_parse.tpl
+//@include frag/server_request_reply.tpl
     }
 }
 } // verus!
